@@ -76,7 +76,7 @@ KF_LEADING_ONE = "KF-setitem-value-extra-leading-dim"
 KF_WHERE_0D = "KF-ufunc-where-0d-out"
 KF_NEG_ZERO_CHUNK = "KF-negstep-slice-zero-width-chunk"
 KF_MASKED_0D = "KF-setitem-masked-0d"
-KF_ZERO_CHUNK_MASK = "KF-ccs-after-zero-width-chunk-unify"
+KF_ZERO_CHUNK_MASK = "KF-zero-width-chunk-layout-drift"
 KF_SEPARATED = "KF-index-int-fancy-separated"
 KF_RESHAPE0 = "KF-reshape-zero-size"
 
@@ -706,6 +706,8 @@ class Interp:
             self.tags.add(KF_SLICE_UOUT)
         if kind == "slice" and has_neg_step(step["index"]) and has_zero_chunk(v.coll):
             self.tags.add(KF_NEG_ZERO_CHUNK)
+        if kind in ("boolmask", "rowmask") and has_zero_chunk(v.coll):
+            self.tags.add(KF_ZERO_CHUNK_MASK)
         try:
             y = fc(v.coll)
         except NotImplementedError:
@@ -1168,6 +1170,9 @@ def gen_derive(D_, it, family="any"):
     kind = D_.weighted(kinds)
     if v.uout and kind in ("slice", "boolmask", "rowmask") and _steer(KF_SLICE_UOUT):
         it.excluded.append(KF_SLICE_UOUT)
+        kind = "copy"
+    if kind in ("boolmask", "rowmask") and has_zero_chunk(v.coll) and _steer(KF_ZERO_CHUNK_MASK):
+        it.excluded.append(KF_ZERO_CHUNK_MASK)
         kind = "copy"
     step = {"op": "derive", "src": i, "kind": kind, "cold": D_.chance(1, 3)}
     if kind == "slice":
@@ -1973,7 +1978,7 @@ REGION_DOC = {
     KF_LEADING_ONE: "setitem with a value that has more dimensions than the selection (extra leading unit dimensions)",
     KF_WHERE_0D: "ufunc(..., out=v, where=mask) on a 0-d v",
     KF_MASKED_0D: "x[...] = np.ma.masked on a 0-d x",
-    KF_ZERO_CHUNK_MASK: "compute_chunk_sizes of a collection built by combining (dask-mask assignment, v+w) operands of which one has a zero-width block next to other blocks",
+    KF_ZERO_CHUNK_MASK: "optimisation changes the block structure of collections with a zero-width block next to other blocks (typical after compute_chunk_sizes): compute_chunk_sizes after a dask-mask assignment / v+w on them, or v[v>k] on them, raises",
     KF_NEG_ZERO_CHUNK: "negative-step slice of a collection whose chunks contain a zero-width block next to other blocks (typical after compute_chunk_sizes)",
     KF_OUT_DTYPE: "ufunc(..., out=v) whose natural result dtype differs from v's dtype",
     KF_SLICE_UOUT: "a basic index / boolean mask (or compute_chunk_sizes, which slices internally) applied to a collection whose expression contains an ufunc out= result",
